@@ -70,11 +70,13 @@ def obs_multiset(cov):
             for o, l in d.items() if l}
 
 
-def make_pair(gene, reads, indel, params, tmp):
+def make_pair(gene, reads, indel, params, tmp, gap=False):
     import aldy.sam as sam_mod
 
     lo = min(gene.chr_to_ref)
-    region = GRange(gene.chr, reads[0][0] - 1, reads[0][0] + 3)
+    # gap: the neutral region starts two positions before the first read (positions
+    # without any read inside the neutral region)
+    region = GRange(gene.chr, reads[0][0] - (4 if gap else 1), reads[0][0] + 3)
     data = {gene.name: {r: [10.0] * len(gene.regions) for r in gene.regions[0]}}
     prof = Profile("p", region, data, neutral_value=12.0, **params)
     fr = []
@@ -246,6 +248,7 @@ def run_config(cfg):
     eng = Engine(name="c17")
     V1, V2 = c06.read_vars(2, "r1"), c06.read_vars(2, "r2")
     ind, par = z3.Bool("indel"), z3.Int("params")
+    ngap = z3.Bool("neutral_region_has_uncovered_positions")
     base = c06.read_base(V1, 2) + c06.read_base(V2, 2) + [V1["op"][0] == cfg["first"],
                                                          par >= 0, par < len(PARAMS)]
     # second read: a single concrete match run (bounds the space)
@@ -259,12 +262,13 @@ def run_config(cfg):
         r1 = c06.choose_read(eng, gene, sample, cfg, V1)
         r2 = c06.choose_read(eng, gene, sample, cfg, V2)
         indel = eng.branch(ind)
+        gap = eng.branch(ngap)
         params = PARAMS[eng.choose(par, range(len(PARAMS)))]
         try:
-            s1, s2 = make_pair(gene, [r1, r2], indel, params, tmp)
+            s1, s2 = make_pair(gene, [r1, r2], indel, params, tmp, gap)
         except Exception as e:  # noqa
-            return (r1, r2, indel, params), [("exception", f"{type(e).__name__}: {e}")]
-        return (r1, r2, indel, params), compare(gene, s1, s2)
+            return (r1, r2, indel, params, gap), [("exception", f"{type(e).__name__}: {e}")]
+        return (r1, r2, indel, params, gap), compare(gene, s1, s2)
 
     n = 0
     try:
@@ -275,9 +279,10 @@ def run_config(cfg):
             for key, msg in probs:
                 res["violations"].append({
                     "what": f"GA/{cfg['genome']} reads {case[0]}, {case[1]} indel={case[2]} "
-                            f"params={case[3]}: {msg}", "key": f"dump-{key}",
+                            f"params={case[3]} neutral-gap={case[4]}: {msg}",
+                    "key": f"dump-{key}",
                     "replay": {"genome": cfg["genome"], "r1": case[0], "r2": case[1],
-                               "indel": case[2], "params": case[3]}})
+                               "indel": case[2], "params": case[3], "gap": case[4]}})
             if len(res["samples"]) < 2:
                 res["samples"].append({"reads": [case[0], case[1]], "params": case[3]})
     finally:
@@ -302,7 +307,8 @@ def replay(o):
         r1 = (o["r1"][0], [tuple(c) for c in o["r1"][1]], o["r1"][2])
         r2 = (o["r2"][0], [tuple(c) for c in o["r2"][1]], o["r2"][2])
         try:
-            s1, s2 = make_pair(gene, [r1, r2], o["indel"], o["params"], tmp)
+            s1, s2 = make_pair(gene, [r1, r2], o["indel"], o["params"], tmp,
+                               o.get("gap", False))
         except Exception as e:  # noqa
             return True, f"{type(e).__name__}: {e}"
         probs = compare(gene, s1, s2)
